@@ -244,6 +244,80 @@ def table_delta(before, after):
     return out
 
 
+# ------------------------------------------------------------------------------------------------ cached document objects
+def deep_digest(v):
+    """content hash (within this process) of a parsed PDF object: lists and dictionaries deeply, a stream by its dictionary
+    (its data is decoded lazily in place - that is not a change of the object), a reference by its object number"""
+    from pdfminer.pdftypes import PDFObjRef, PDFStream
+    from pdfminer.psparser import PSKeyword, PSLiteral
+    if isinstance(v, dict):
+        return hash(frozenset((repr(k), deep_digest(x)) for k, x in v.items()))
+    if isinstance(v, (list, tuple)):
+        return hash(("seq",) + tuple(deep_digest(x) for x in v))
+    if isinstance(v, PDFStream):
+        return hash(("stream", deep_digest(v.attrs)))
+    if isinstance(v, PDFObjRef):
+        return hash(("ref", v.objid))
+    if isinstance(v, (PSLiteral, PSKeyword)):
+        return hash(("name", repr(v.name)))
+    if isinstance(v, (int, float, str, bytes, bool)) or v is None:
+        return hash((type(v).__name__, v))
+    return hash(type(v).__name__)
+
+
+class CacheWatch:
+    """Wraps PDFPageInterpreter.process_page (in this process, at run time): the objects in the page's document's object
+    cache (PDFDocument._cached_objs) are digested before and after every page.  An object that was in the cache before
+    the page and has different content after it was mutated in place - whoever gets it from the cache next (another page,
+    another resource) sees something the file does not say."""
+
+    def __init__(self):
+        self.records = []
+        self.installed = False
+
+    def install(self):
+        if self.installed:
+            return self
+        from pdfminer.pdfinterp import PDFPageInterpreter
+        from ..tlc import MachineryError
+        if not hasattr(PDFPageInterpreter, "process_page"):
+            raise MachineryError("PDFPageInterpreter.process_page is gone: cannot watch cached objects")
+        orig = PDFPageInterpreter.process_page
+        watch = self
+
+        def snapshot(doc):
+            cache = getattr(doc, "_cached_objs", None)
+            if not isinstance(cache, dict):
+                return {}
+            out = {}
+            for objid, entry in cache.items():
+                obj = entry[0] if isinstance(entry, tuple) and entry else entry
+                try:
+                    out[objid] = deep_digest(obj)
+                except Exception:  # noqa: BLE001
+                    out[objid] = 0
+            return out
+
+        def process_page(interp, page):
+            doc = getattr(page, "doc", None)
+            before = snapshot(doc)
+            try:
+                return orig(interp, page)
+            finally:
+                after = snapshot(doc)
+                changed = sorted(k for k in before if after.get(k, None) != before[k])
+                watch.records.append({"nb": len(before), "na": len(after), "before": table_summary(before),
+                                      "oldafter": table_summary({k: after[k] for k in before if k in after}),
+                                      "changed": [str(k) for k in changed][:8]})
+        PDFPageInterpreter.process_page = process_page
+        self.installed = True
+        return self
+
+    def take(self):
+        r, self.records = self.records, []
+        return r
+
+
 # ------------------------------------------------------------------------------------------------ zygote worker
 def handle(req):
     op = req["op"]
